@@ -163,3 +163,18 @@ Definition apply_patch_f (fs : fails) (object patch : node) (cs : bool) : res (Z
             end
         end
   end.
+
+(** ---- cJSONUtils_ApplyPatches[CaseSensitive] with refusals: one [fails] per operation met ([no_fails] when the list
+        is exhausted); results: (status, document, patch elements afterwards, leaked values — newest first) ---- *)
+Definition leak_list {A} (o : option A) : list A := match o with Some x => [x] | None => [] end.
+Fixpoint apply_loop_f (fss : list fails) (object : node) (ps : list node) (cs : bool) : res (Z * node * list node * list node) :=
+  match ps with
+  | [] => Ok (0, object, [], [])
+  | p :: r =>
+      ' (st, o, p', lk) <- apply_patch_f (hd no_fails fss) object p cs ;;
+      if negb (st =? 0) then Ok (st, o, p' :: r, leak_list lk)
+      else ' (st2, o2, r', lks) <- apply_loop_f (tl fss) o r cs ;; Ok (st2, o2, p' :: r', lks ++ leak_list lk)
+  end.
+Definition apply_patches_f (fss : list fails) (object patches : node) (cs : bool) : res (Z * node * node * list node) :=
+  if negb (is_array patches) then Ok (1, object, patches, [])
+  else ' (st, o, ps, lks) <- apply_loop_f fss object (n_children patches) cs ;; Ok (st, o, set_children patches ps, lks).
